@@ -128,6 +128,50 @@ theorem reverse_branch (i : SInsn) (mk : Lab → SInsn) (h : reverseBranch i = s
 
 example : (reverseBranch (.bcmp .ult true 1 (.reg (.user "a")) (.imm 5) : SInsn)).isSome = true := by decide
 
+/-! ### floating-point branches have no reverse -/
+
+/-- outcome of comparing two IEEE values: less, equal, greater, unordered (a NaN operand) -/
+inductive FpOrd | lt | eq | gt | un
+deriving DecidableEq, Repr
+
+/-- the six floating-point compare-and-branch conditions of MIR.md (`fbeq … dbge`, also `ld`) -/
+inductive FpBr | beq | bne | blt | ble | bgt | bge
+deriving DecidableEq, Repr
+
+/-- is the branch taken? (IEEE: every comparison with a NaN is false, except `!=`) -/
+def FpBr.taken : FpBr → FpOrd → Bool
+  | .beq, o => o == .eq
+  | .bne, o => o != .eq
+  | .blt, o => o == .lt
+  | .ble, o => o == .lt || o == .eq
+  | .bgt, o => o == .gt
+  | .bge, o => o == .gt || o == .eq
+
+/-- **fp_branch_has_no_reverse.**  No floating-point branch is the negation of an ordering branch
+(`blt/ble/bgt/bge`): with an unordered pair `dblt` is not taken and neither is `dbge` (nor any
+other ordering branch), while `dbne` differs from `¬dblt` on `gt`.  So `BCond L; JMP L2; L:` must be
+left alone for them — only `beq`/`bne` are each other's negation. -/
+theorem fp_branch_has_no_reverse :
+    (∀ c ∈ [FpBr.blt, .ble, .bgt, .bge], ∀ c' : FpBr, ∃ o, c'.taken o ≠ !c.taken o) ∧
+    (FpBr.blt.taken .un = false ∧ FpBr.bge.taken .un = false) ∧
+    (∀ o, FpBr.bne.taken o = !FpBr.beq.taken o) := by
+  refine ⟨?_, ⟨rfl, rfl⟩, fun o => by cases o <;> rfl⟩
+  intro c hc c'
+  simp only [List.mem_cons, List.not_mem_nil, or_false] at hc
+  rcases hc with rfl | rfl | rfl | rfl <;> cases c' <;>
+    first
+      | exact ⟨.un, by decide⟩
+      | exact ⟨.gt, by decide⟩
+      | exact ⟨.lt, by decide⟩
+      | exact ⟨.eq, by decide⟩
+
+/-- … and `MIR_reverse_branch_code` of the current mir.c has no floating-point row at all -/
+theorem reverse_table_has_no_fp_row :
+    ∀ r ∈ Gen.C04.reverseRows,
+      r.1 ∉ ["FBEQ", "FBNE", "FBLT", "FBLE", "FBGT", "FBGE", "DBEQ", "DBNE", "DBLT", "DBLE", "DBGT", "DBGE",
+             "LDBEQ", "LDBNE", "LDBLT", "LDBLE", "LDBGT", "LDBGE"] := by
+  decide +kernel
+
 /-! ## CFG-local rewrites -/
 
 /-- **jump_to_next.**  `BR L | JMP L; <labels> L:` — the model's condition (`reaches`) means exactly
